@@ -150,10 +150,24 @@ type C18Gate struct {
 	DropAt       int   `json:"drop_at_ms"`      // server drops the first connection at this time (0 = never)
 	DropKeepOpen bool  `json:"drop_keep_read"`  // poison with an undecodable byte instead of closing
 	TimeoutMs    int   `json:"timeout_ms"`
+	// ReadyTwice: the application declares ready a second time a few milliseconds after the first
+	// (full type); AcceptDelay2: the server delays its accept on every later connection as well
+	ReadyTwice   bool `json:"ready_twice,omitempty"`
+	AcceptDelay2 int  `json:"accept_delay2_ms,omitempty"`
 }
 
 func c18GateRun(g *C18Gate) (*c16Violation, map[string]bool) {
 	flags := map[string]bool{}
+	// flags set by the server and application goroutines go to a map of their own and are merged on return
+	var fmu sync.Mutex
+	flags2 := flagSetter{m: map[string]bool{}, mu: &fmu}
+	defer func() {
+		fmu.Lock()
+		for k := range flags2.m {
+			flags[k] = true
+		}
+		fmu.Unlock()
+	}()
 	start := time.Now()
 	var mu sync.Mutex
 	regBad := ""
@@ -177,6 +191,9 @@ func c18GateRun(g *C18Gate) (*c16Violation, map[string]bool) {
 		}
 		if sc.index == 0 {
 			time.Sleep(time.Duration(g.AcceptDelay) * time.Millisecond)
+		} else if g.AcceptDelay2 > 0 {
+			time.Sleep(time.Duration(g.AcceptDelay2) * time.Millisecond)
+			flags2.set("later-accept-delayed")
 		}
 		_ = sc.sendAccept("")
 		if sc.index == 0 && g.DropAt > g.AcceptDelay {
@@ -239,6 +256,11 @@ func c18GateRun(g *C18Gate) (*c16Violation, map[string]bool) {
 					handled = n
 					time.Sleep(time.Duration(g.ReadyDelay) * time.Millisecond)
 					_ = tc.c.Ready(srvQuietCtx(), tc.c.NextMessageID())
+					if g.ReadyTwice {
+						time.Sleep(5 * time.Millisecond)
+						_ = tc.c.Ready(srvQuietCtx(), tc.c.NextMessageID())
+						flags2.set("ready-twice")
+					}
 				}
 				select {
 				case <-stopApp:
@@ -344,7 +366,7 @@ func c18GateRun(g *C18Gate) (*c16Violation, map[string]bool) {
 	return nil, flags
 }
 
-const c18Rule = "forged accepts (random key, key for another hash, signature by another key, by the root key, over another hash, counts altered after signing) for both connection types, optionally preceded or followed by data, or with an application request queued when the forged accept arrives; gating plans (accept delay, ready delay, calls at generated times relative to connect/accept/ready, connection dropped or poisoned at a generated time); oracle: forged accept => not accepted, nothing reaches handlers, the connection fails; register validly signed with a fresh hash per connection; per connection only handshake-type messages before its handshake completed; a call that returned nil was written after a handshake; non-trivial = every forged case, and gating cases with a call issued while no handshake is complete; distinct by case hash"
+const c18Rule = "forged accepts (random key, key for another hash, signature by another key, by the root key, over another hash, counts altered after signing) for both connection types, optionally preceded or followed by data, or with an application request queued when the forged accept arrives; gating plans (accept delay on the first and on later connections, ready delay, in a third of the full-type plans a second ready declaration, calls at generated times relative to connect/accept/ready, connection dropped or poisoned at a generated time); oracle: forged accept => not accepted, nothing reaches handlers, the connection fails; register validly signed with a fresh hash per connection; per connection only handshake-type messages before its handshake completed; a call that returned nil was written after a handshake; non-trivial = every forged case, and gating cases with a call issued while no handshake is complete; distinct by case hash"
 
 func TestC18Forged(t *testing.T) {
 	rep := verifkit.NewReport("C18", "TestC18Forged", c18Rule)
@@ -476,6 +498,10 @@ func TestC18Gating(t *testing.T) {
 			DropKeepOpen: rapid.Bool().Draw(rt, "poison")}
 		if rapid.IntRange(0, 2).Draw(rt, "drop") > 0 {
 			g.DropAt = rapid.SampledFrom([]int{10, 40, 60, 120, 200}).Draw(rt, "dropat")
+		}
+		g.ReadyTwice = !g.Control && rapid.IntRange(0, 2).Draw(rt, "readytwice") == 0
+		if g.DropAt > 0 {
+			g.AcceptDelay2 = rapid.SampledFrom([]int{0, 0, 60, 150}).Draw(rt, "acceptdelay2")
 		}
 		for i, n := 0, rapid.IntRange(1, 4).Draw(rt, "ncalls"); i < n; i++ {
 			g.CallAt = append(g.CallAt, rapid.SampledFrom([]int{0, 5, 25, 50, 90, 130, 190, 260}).Draw(rt, "callat"))
